@@ -58,6 +58,28 @@ def nb1(ctx):
         ok = any(b.edge_dominates(te, p) for (_cs, te, _fe) in succ)
         ctx.check(ok, '%s#%d' % (loc, seen[loc]), where(b, p), 'reader position updated only under a successful block read',
                   'the reader\'s position (%s) is updated before the block read succeeded: on a short or empty next file the reader (and the writer built from it) ends up inside a file it read nothing from' % loc.split('.')[-1])
+    # ... and the reader leaves the file it is on only after a read OF THAT FILE came back short: every path from the
+    # entry to a store into `file` passes a read whose handle is the reader's own `file` field (a shortcut on the block
+    # count -- "this file has NUM_BLOCKS_PER_FILE blocks, no need to ask" -- assumes the length instead of observing it:
+    # blocks beyond the assumed end are never read)
+    def reads_own_file(cs):
+        if cs.node is not None or not cs.name.endswith('read_exact') or not cs.args:
+            return False
+        for o in b.trace_local(cs.arg_local(0)) if cs.arg_local(0) is not None else []:
+            if o[0] == 'rv' and o[2]['k'] == 'ref' and mem_loc(o[2]['place']) == 'RollingReader.file':
+                return True
+        al = cs.arg_local(0)
+        d = b.single_def(al) if al is not None else None
+        return bool(d and d[1] == 'assign' and d[2]['rv']['k'] == 'ref' and mem_loc(d[2]['rv']['place']) == 'RollingReader.file')
+    own_reads = [cs.point for cs in b.calls if reads_own_file(cs)]
+    if own_reads:
+        kk = 0
+        for (p, pl, rv) in b.stores:
+            if mem_loc(pl) != 'RollingReader.file':
+                continue
+            kk += 1
+            ctx.check(p not in b.reach([b.entry], avoid=own_reads), 'leaves-a-file-only-after-reading-it#%d' % kk, where(b, p), 'the reader switches files only after a read of its current file',
+                      'the reader can switch to the next file without having read its current file to the end (a shortcut on the block count): blocks beyond the assumed end of a longer file are never read')
     # a failed read in the file loop must not be reported as success
     k = 0
     for e in b.exits():
@@ -251,8 +273,12 @@ def gc13(ctx):
     # tracker methods that remove an element
     removers = set()
     for b in ctx.f.bodies.values():
-        if b.path.startswith('rolling::file_number::FileTracker::') and any(re.search(r'BTreeSet::<%s>::(remove|take|pop_last|pop_first|retain|clear|split_off)' % re.escape(FN), cs.name) for cs in b.calls):
-            removers.add(b.id)
+        if b.path.startswith('rolling::file_number::FileTracker::'):
+            rm = [cs.point for cs in b.calls if re.search(r'BTreeSet::<%s>::(remove|take|pop_last|pop_first|retain|clear|split_off)' % re.escape(FN), cs.name)]
+            # ... on EVERY path: an un-tracking method that returns early under a condition of its own (`unless
+            # can_be_deleted()`: never true for the handle the caller still holds) removes nothing
+            if rm and not any(r_ in b.reach([b.entry], avoid=rm) for r_ in b.return_points()):
+                removers.add(b.id)
     n = 0
     for b in ctx.f.bodies.values():
         if b.generic_dup() or b.is_test or b.path.startswith('rolling::file_number::'):
@@ -761,7 +787,7 @@ def rp5(ctx):
                   detail={'path': b.witness(edge[1], cs0.point, avoid=here + [c.point for c in via], avoid_edges=absent)} if skipped and cs0.point in r_ else None)
 
 
-@rule('MQ1', ['C01', 'C04', 'C18'], floor=2, template='provenance')
+@rule('MQ1', ['C01', 'C04', 'C18', 'C09'], floor=2, template='provenance')
 def mq1(ctx):
     """A queue enters the queue map FRESH: the value inserted is built on the spot by `MemQueue::default()` (a created
     queue starts at position 0, which is what its WAL entry says) or `MemQueue::with_next_position(p)` (replay of a
